@@ -141,6 +141,8 @@ pub fn run(ctx: &mut Ctx) {
 /// threshold an engine might switch algorithms at): selected slots against the same slots coded alone as 2-byte shards,
 /// exact lengths, and a decode of the full-size shards.  Run directly (the hex lines of a case would be tens of MB).
 fn huge_shards(ctx: &mut Ctx) {
+    // (release profile only: the dev profile runs the same code paths on the ordinary sizes, with debug assertions on)
+    if cfg!(debug_assertions) { return; }
     let thorough = ctx.thorough();
     let mut engines: Vec<&str> = vec!["nosimd"];
     if thorough { engines = ENGINES.iter().cloned().filter(|e| *e != "neon" || crate::neon_port::AVAILABLE).collect(); } else { engines.push(*ctx.rng.pick(&["naive", "ssse3", "avx2", "default"])); }
